@@ -165,12 +165,12 @@ def gen_b2(ctx, vh, n, maxn, nq, seed):
 # execute on the real code, judge with TLC
 # --------------------------------------------------------------------------
 
-def execute(ctx, vh, cases, name):
+def execute(ctx, vh, cases, name, par=1):
     d = ctx.scratch(name + "-exec")
     cp = os.path.join(d, "cases.ndjson")
     core.write_ndjson(cp, cases)
     tp = os.path.join(d, "trace.ndjson")
-    core.run_vh(vh, ["spatial-exec", "-in", cp, "-out", tp, "-seed", str(ctx.seed)], timeout=1800)
+    core.run_vh(vh, ["spatial-exec", "-in", cp, "-out", tp, "-seed", str(ctx.seed), "-par", str(par)], timeout=1800)
     with open(tp) as f:
         return f.readlines()
 
@@ -423,6 +423,48 @@ def selftest(ctx, raw):
     ctx.extra["selftest_corruptions_rejected"] = len(expect)
 
 
+PAR = 8
+
+
+def concurrent_pass(ctx, vh, cases, alone):
+    """B3: the queries of every batch issued from PAR goroutines at the same time on the one tree of the case (octree
+    cases; the list ray query fills a buffer owned by the tree - by design one caller at a time - and is serialised
+    by the harness). The answers are judged like those of the sequential pass; a query rejected only here was disturbed
+    by another query in flight. Confirmed by running the batch again."""
+    quick = ctx.tier == "quick"
+    failed = {f["case"] for f in alone}
+    pool = [c for c in cases if c["kind"] in ("point", "line", "tri", "box") and c["id"] not in failed
+            and len(c.get("qpts") or []) + len(c.get("rays") or []) + len(c.get("ranges") or []) >= 4]
+    random.Random(ctx.seed + 11).shuffle(pool)
+    pool = pool[:400 if quick else 4000]
+    batch = [dict(c, id=i) for i, c in enumerate(pool)]
+    rounds = []
+    for rnd in range(3):
+        raw = execute(ctx, vh, batch, "par%d" % rnd, par=PAR)
+        fs = [f for f in judge(ctx, raw, "par%d" % rnd) if f["pred"].startswith("C16.")]
+        rounds.append(fs)
+        if rnd == 0 and not fs:
+            break
+        if rnd == 1 and fs:
+            break
+    ctx.extra["b3_concurrent"] = {"goroutines": PAR, "cases": len(batch), "rejected_per_round": [len(x) for x in rounds]}
+    if not rounds[0]:
+        return
+    if sum(1 for x in rounds if x) < 2:
+        raise core.Infra("a rejection under concurrent queries was seen once in %d rounds and not again" % len(rounds))
+    seen = {}
+    for fs in rounds:
+        for f in fs:
+            seen.setdefault("%s/%s/%s/concurrent" % (f["pred"], op_of(f["pred"], f["k"]), f["kind"]), f)
+    for sig, f in sorted(seen.items())[:4]:
+        case = batch[f["case"]]
+        what = ("%s rejected %s on a %s element set (%d elements, depth %s) when %d goroutines queried the tree at the same "
+                "time (rejected in %d of %d rounds; the same case queried by one caller is accepted)" %
+                (f["pred"], op_of(f["pred"], f["k"]), f["kind"], n_elements(case), case["depth"], PAR,
+                 sum(1 for x in rounds if x), len(rounds)))
+        ctx.violation(sig, what, {"family": "spatial", "pred": f["pred"], "concurrent": True, "case": case, "seed": ctx.seed})
+
+
 def run(ctx):
     quick = ctx.tier == "quick"
     vh = core.build_vh()
@@ -459,6 +501,7 @@ def run(ctx):
     raw = execute(ctx, vh, cases, "main")
     findings = judge(ctx, raw, "main")
     report(ctx, vh, cases, findings)
+    concurrent_pass(ctx, vh, cases, findings)
     acc = {k: 0 for k in STAT_KEYS}
     stats(raw, acc, cases)
     ctx.extra.update(acc)
@@ -502,6 +545,21 @@ def replay(ctx, path):
     vh = core.build_vh()
     case = obj["case"]
     ctx.seed = obj.get("seed", ctx.seed)
+    if obj.get("concurrent"):
+        findings = []
+        for rnd in range(4):
+            raw = execute(ctx, vh, [dict(case, id=i) for i in range(100)], "replay%d" % rnd, par=PAR)
+            findings = [f for f in judge(ctx, raw, "replay%d" % rnd) if f["pred"].startswith("C16.")]
+            if findings:
+                break
+        for f in findings[:3]:
+            print("replay (concurrent): %s on %s line" % (f["pred"], f["k"]))
+            ctx.violation("%s/%s/%s/concurrent" % (f["pred"], op_of(f["pred"], f["k"]), f["kind"]), "replayed", obj)
+        ctx.traces = ctx.evaluations = 100
+        ctx.nontrivial = 1
+        ctx.rule = "replay of one recorded case under concurrent queries"
+        ctx.sample({"replayed": path})
+        return
     raw = execute(ctx, vh, [case], "replay")
     findings = judge(ctx, raw, "replay")
     for f in findings:
